@@ -6,5 +6,5 @@ git -C /repo worktree list | grep -q /tmp/wt2 || git -C /repo worktree add -q --
 git -C /tmp/wt2 reset -q --hard; git -C /tmp/wt2 checkout -q --detach "$(git -C /repo rev-parse HEAD)"
 (cd /tmp/wt2 && git apply --3way $d/patch.diff >/dev/null 2>&1 || echo "PATCH DOES NOT APPLY"; git reset -q)
 [ -n "${KEEP:-}" ] || trap 'git -C /tmp/wt2 reset -q --hard' EXIT
-mkdir -p /tmp/ev2/evidence; cp /verif/known_findings.txt /tmp/ev2/
+mkdir -p /tmp/ev2/evidence; cp /verif/known_findings.txt /tmp/ev2/; ln -sfn /verif/checker /tmp/ev2/checker
 /verif/bin/mcapvet "$2" --tier quick --repo /tmp/wt2 --verif /tmp/ev2 2>&1 | grep -v "^   rule .* violated=0 " | grep -E "${3:-.}" | cut -c1-1500
